@@ -95,11 +95,21 @@ func cmdWorker(args []string) int {
 	}
 	// watchdog: a single transition that runs for minutes (unbounded recursion in the code under test, a lock that is
 	// never released) must not hang the check
+	// The watchdog does not trust the wall clock (the machine may be suspended, or starved by other jobs): it counts
+	// its own wake-ups, 5 s apart, during which one and the same transition was running; 60 of them in a row
+	// (five minutes of the watchdog's own observed time) end the worker.
 	go func() {
+		var lastSeq uint64
+		ticks := 0
 		for {
 			time.Sleep(5 * time.Second)
-			if d, path := explore.Stalled(); d > 150*time.Second {
-				fmt.Printf("STALLED transition running for %s: %s\n", d.Round(time.Second), strings.Join(path, " ; "))
+			d, path, seq := explore.StalledSeq()
+			if seq == 0 || seq != lastSeq {
+				lastSeq, ticks = seq, 0
+				continue
+			}
+			if ticks++; ticks >= 60 {
+				fmt.Printf("STALLED transition running for %s (%d watchdog wake-ups): %s\n", d.Round(time.Second), ticks, strings.Join(path, " ; "))
 				os.Exit(7)
 			}
 		}
